@@ -268,6 +268,16 @@ def step (s : Sess) (op : List String) : Sess :=
 
 def ipStr (a : Array Nat) : String := ".".intercalate (a.toList.map toString)
 
+/-- a zeroed `d`-byte result buffer after `copy(dst, ip[:])` of a 4-byte address -/
+def dst4 (ip : Array Nat) (d : Nat) : String :=
+  ".".intercalate (((ip.toList.take (min d 4)) ++ List.replicate (d - min d 4) 0).map toString)
+
+/-- a zeroed `d`-byte result buffer after the IPv6 store (only done when `d ≥ 16`): eight big-endian 16-bit groups -/
+def dst6 (a : Array Nat) (d : Nat) : String :=
+  let bytes := if d ≥ 16 then (a.toList.take 8).flatMap (fun g => [g / 256 % 256, g % 256]) ++ List.replicate (d - 16) 0
+               else List.replicate d 0
+  ".".intercalate (bytes.map toString)
+
 /-- stateless function kinds -/
 def runFunc (toks : List String) : Option String :=
   match toks with
@@ -285,6 +295,24 @@ def runFunc (toks : List String) : Option String :=
   | ["containsip4", h] =>
     match containsIP4 (unhex h) with
     | some (o, l, ip) => some s!"1,{o},{l},{ipStr ip}"
+    | none => some "0,0,0"
+  -- the same functions with a caller-supplied result buffer of `d` bytes: Go's `copy(dst, ip[:])` fills the first
+  -- min(d,4) bytes (IPv4); the IPv6 functions fill the buffer only when it has at least 16 bytes
+  | ["ip4prefixd", h, d] =>
+    let (ok, n, e, ip) := ip4Prefix (unhex h)
+    some (s!"{Obs.b01 ok},{n},{e.name}" ++ (if ok then ",dst=" ++ dst4 ip (natOf d) else ""))
+  | ["containsip4d", h, d] =>
+    match containsIP4 (unhex h) with
+    | some (o, l, ip) => some (s!"1,{o},{l},dst=" ++ dst4 ip (natOf d))
+    | none => some "0,0,0"
+  | ["ip6prefixd", h, d] =>
+    let (ok, n, e, a, p) := ip6Prefix (unhex h)
+    if p then some "PANIC" else
+    some (s!"{Obs.b01 ok},{n},{e.name}" ++ (if ok then ",dst=" ++ dst6 a (natOf d) else ""))
+  | ["containsip6d", h, d] =>
+    match containsIP6 (unhex h) with
+    | some (_, _, _, true) => some "PANIC"
+    | some (o, l, a, _) => some (s!"1,{o},{l},dst=" ++ dst6 a (natOf d))
     | none => some "0,0,0"
   | ["ip6prefix", h] =>
     let (ok, n, e, a, p) := ip6Prefix (unhex h)
